@@ -422,6 +422,61 @@ func checkHostProgramAPI(c *ProgCase) *Outcome {
 	return ok(forms > 0 && len(c.Env) > 0, "host-struct-programs")
 }
 
+// ---- every numeric built-in over boundary operands (as literals): the call returns - a value or
+// an error - within the time limit, on the VM (Eval) and on the closure back end
+
+type BoundaryCase struct {
+	Op string `json:"op"`
+	A  int    `json:"a"` // index into boundaryNums
+	B  int    `json:"b"`
+}
+
+var boundaryNums = []string{"0", "1", "(-1)", "0.5", "(-0.5)", "2", "(-2)", "10", "9007199254740992", "9007199254740993", "4611686018427387904", "(-4611686018427387904)",
+	"9223372036854775807", "9223372036854775808", "(-9223372036854775808)", "(-9223372036854775809)", "18446744073709551616", "1e19", "1e308", "(-1e308)", "5e-324", "1e-310", "(0 / 0)", "(1 / 0)", "(-1 / 0)"}
+
+var boundaryOps = []string{"+", "-", "*", "/", "%", "^", "max", "min", "==", "<", "round", "floor", "ceil", "abs", "string"}
+
+func checkBoundary(c *BoundaryCase) *Outcome {
+	if c.A < 0 || c.A >= len(boundaryNums) || c.B < 0 || c.B >= len(boundaryNums) {
+		return skip("bad-index")
+	}
+	a, b := boundaryNums[c.A], boundaryNums[c.B]
+	var src string
+	switch c.Op {
+	case "max", "min":
+		src = c.Op + "(" + a + ", " + b + ")"
+	case "round", "floor", "ceil", "abs", "string":
+		src = c.Op + "(" + a + " ^ " + b + ")"
+	default:
+		src = a + " " + c.Op + " " + b
+	}
+	for _, closureBE := range []bool{false, true} {
+		done := make(chan *run.Panic, 1)
+		go func() {
+			done <- run.Guard(func() {
+				if closureBE {
+					if cl, err := yae.NewExpr().UseClosureCompiler().Compile(src, nil); err == nil {
+						_, _ = cl(nil)
+					}
+				} else {
+					_, _ = yae.Eval(src, nil)
+				}
+			})
+		}()
+		select {
+		case p := <-done:
+			if p != nil {
+				return bad("evaluating %s panicked instead of returning an error: %s", src, p.Text)
+			}
+		case <-time.After(20 * time.Second):
+			return bad("evaluating %s does not return (still running after 20 s; closure back end: %v): the host is blocked", src, closureBE)
+		}
+	}
+	return ok(true, "boundary-operands:"+c.Op)
+}
+
+var c12boundary = Register(&Prop[BoundaryCase]{ID: "C12", Name: "boundary-operands", Check: checkBoundary})
+
 var c12hostOpt = gen.ProgOpt{Fuel: 3, Partial: true, Sugar: true, Maybe: false, Times: true, HostEnv: true}
 var c12host = Register(&Prop[ProgCase]{ID: "C12", Name: "api-total-same-go-type", Gen: genProgCase(c12hostOpt, nil), Check: checkHostProgramAPI})
 
@@ -747,7 +802,7 @@ var evalScaleCases = []*EvalScaleCase{
 }
 
 func TestC12(t *testing.T) {
-	R.Rule = "source strings up to 256 bytes (quick) / 4 KiB (thorough): random bytes, random runes, token soup from the lexicon, grammar-aware edits (insert / delete / duplicate / swap) of valid programs taken from a seed list and from the program generator, bracket nests to depth 12, valid programs; environments: none, Go host values built by reflection (structs, maps, slices, pointers, interface parts, nil parts, unsupported kinds), or one of the fixed hostile host values (cyclic maps / slices / struct rings, self-referential pointers, recursive Go types with nil links, nesting beyond conv's limit, typed nils, unsupported kinds), also as run-time environment of a Callable compiled against something else; accepted generated programs over a host struct of interface{} fields or untagged pointer fields, the Callable then invoked with other values of the very same Go type (zero value, fields holding one another's values, strings / lists / numbers / maps); accepted sources are also passed to Debug and Eval with blanks / line breaks before and after them; every call of Eval, Compile (two back ends), the Callable (same environment, a mismatching map, nil, a number, an unsupported struct, raw *val.Env values - empty, a chain of scopes, a typed nil - and *types.Env values, values of the very same Go struct type that have another yae type: the zero value, interface{} fields holding a string / list / number / map) and Debug must return without panicking, with a value or an error, within 5 s (a slower call is repeated three times and reported only if slow every time; a call that does not return within 180 s aborts the run as a violation); scaling class: compile time against repetition count 2..60 for 45 nest, chain and prefix shapes must not grow by more than 2.5x per two levels over four consecutive steps from depth 12 on (or 1.7x over five steps from depth 30 on); eval-scaling class: 69 closed accepted shapes (nested / chained conditionals, short-circuit operators, user lazy functions, defaults, strict and host calls, literals, selectors, nests in the index / key operand of selectors, method notation) compiled and evaluated on each of the four back ends at repetition counts 2..60, compile time (whole pipeline) and evaluation time under the same growth rule; capacity class: sources of 60-100 KB at the VM's encoding limits (conditionals whose code crosses the 16-bit jump range; thorough: further wide / deep shapes) compiled and invoked twice through the public API on both facade back ends; non-trivial = input accepted, or rejected with more than one token"
+	R.Rule = "source strings up to 256 bytes (quick) / 4 KiB (thorough): random bytes, random runes, token soup from the lexicon, grammar-aware edits (insert / delete / duplicate / swap) of valid programs taken from a seed list and from the program generator, bracket nests to depth 12, valid programs; environments: none, Go host values built by reflection (structs, maps, slices, pointers, interface parts, nil parts, unsupported kinds), or one of the fixed hostile host values (cyclic maps / slices / struct rings, self-referential pointers, recursive Go types with nil links, nesting beyond conv's limit, typed nils, unsupported kinds), also as run-time environment of a Callable compiled against something else; accepted generated programs over a host struct of interface{} fields or untagged pointer fields, the Callable then invoked with other values of the very same Go type (zero value, fields holding one another's values, strings / lists / numbers / maps); accepted sources are also passed to Debug and Eval with blanks / line breaks before and after them; every call of Eval, Compile (two back ends), the Callable (same environment, a mismatching map, nil, a number, an unsupported struct, raw *val.Env values - empty, a chain of scopes, a typed nil - and *types.Env values, values of the very same Go struct type that have another yae type: the zero value, interface{} fields holding a string / list / number / map) and Debug must return without panicking, with a value or an error, within 5 s (a slower call is repeated three times and reported only if slow every time; a call that does not return within 180 s aborts the run as a violation); boundary class: every numeric built-in over all pairs of 25 boundary numbers written as literals (0, ±1, ±0.5, 2^53, ±2^62, ±2^63 and neighbours, 2^64, 1e19, ±1e308, denormals, NaN, ±Inf), evaluated through Eval and the closure back end under a 20 s limit per call; scaling class: compile time against repetition count 2..60 for 45 nest, chain and prefix shapes must not grow by more than 2.5x per two levels over four consecutive steps from depth 12 on (or 1.7x over five steps from depth 30 on); eval-scaling class: 69 closed accepted shapes (nested / chained conditionals, short-circuit operators, user lazy functions, defaults, strict and host calls, literals, selectors, nests in the index / key operand of selectors, method notation) compiled and evaluated on each of the four back ends at repetition counts 2..60, compile time (whole pipeline) and evaluation time under the same growth rule; capacity class: sources of 60-100 KB at the VM's encoding limits (conditionals whose code crosses the 16-bit jump range; thorough: further wide / deep shapes) compiled and invoked twice through the public API on both facade back ends; non-trivial = input accepted, or rejected with more than one token"
 	R.Assume = []string{"termination is only observed under the stated budgets; Go stack exhaustion by inputs beyond 4 KiB is not probed"}
 	reportKnown(t, "C12")
 	runRegress(t, "C12")
@@ -777,6 +832,17 @@ func TestC12(t *testing.T) {
 			for _, src := range []string{"1", "a", "V + 1", "(", ""} {
 				if !yield(&APICase{Kind: "fixed-host", Src: src, Fixed: n}) {
 					return
+				}
+			}
+		}
+	})
+	c12boundary.Each(t, "boundary-operands", func(yield func(*BoundaryCase) bool) {
+		for _, op := range boundaryOps {
+			for a := range boundaryNums {
+				for b := range boundaryNums {
+					if !yield(&BoundaryCase{Op: op, A: a, B: b}) {
+						return
+					}
 				}
 			}
 		}
